@@ -617,12 +617,133 @@ fn input_shapes(prop: Prop, acc: &mut Acc) {
     }
 }
 
+/// E4 — composition: every node kind in every child position of every node kind (thorough: chains
+/// of three kinds), leaves from a small pool, evaluated whole and compared with the reference
+/// evaluator (first error wins, sub-results feed the parent).
+fn composition_leg(prop: Prop, tier: Tier) -> Acc {
+    use super::c05::kinds;
+    let ks = kinds();
+    let pool: Vec<RV> = vec![
+        RV::Int(2),
+        RV::Int(0),
+        RV::float(1.5),
+        RV::Dec(RDec { neg: false, mant: 15, scale: 1 }),
+        RV::Bool(true),
+        RV::str("ab"),
+        RV::None,
+        RV::List(vec![RV::Int(2)]),
+    ];
+    let small: Vec<RV> = vec![RV::Int(2), RV::Bool(true), RV::None, RV::float(1.5)];
+    // (parent index, position, child index)
+    let mut jobs: Vec<(usize, usize, usize)> = Vec::new();
+    for (pi, p) in ks.iter().enumerate() {
+        for pos in 0..p.arity {
+            for ci in 0..ks.len() {
+                jobs.push((pi, pos, ci));
+            }
+        }
+    }
+    fn tuples(pool: &[RV], n: usize) -> Vec<Vec<RV>> {
+        let mut out: Vec<Vec<RV>> = vec![vec![]];
+        for _ in 0..n {
+            let mut next = Vec::new();
+            for t in &out {
+                for v in pool {
+                    let mut x = t.clone();
+                    x.push(v.clone());
+                    next.push(x);
+                }
+            }
+            out = next;
+        }
+        out
+    }
+    let check_tree = |label: &str, tree: &RE, acc: &mut Acc| {
+        let mut env = PlainEnv { facts: RV::None, symbols: BTreeMap::new() };
+        let exp = eval(tree, &mut env);
+        let obs = eval_expr(&tree.to_expr(), &Value::None);
+        acc.count("executions", 1);
+        acc.count("composite_trees", 1);
+        acc.outcome(format!("composite:{}", obs.class()));
+        let bad = match prop {
+            Prop::C01 => matches!(obs, Obs::Panic(_)) || (matches!(exp, Err(RErr::Overflow)) && matches!(obs, Obs::Ok(_))),
+            Prop::C02 => conforms(&exp, &obs) == Some(false),
+            _ => false,
+        };
+        if bad {
+            let text = tree.unparse().unwrap_or_else(|| format!("{tree:?}"));
+            acc.violation(Violation {
+                sig: format!("composite/{label}/{}", obs.class()),
+                what: format!("`{text}` evaluates to {}, the composition of its sub-results is {}", obs.show(), show_exp(&exp)),
+                case: json!({"kind": "tree", "text": text}),
+                size: text.len(),
+            });
+        }
+    };
+    let mut acc = jobs
+        .par_iter()
+        .map(|&(pi, pos, ci)| {
+            let mut acc = Acc::new();
+            let (p, c) = (&ks[pi], &ks[ci]);
+            let label = format!("{}[{}]={}", p.label, pos, c.label);
+            let use_pool: &[RV] = if c.arity + p.arity - 1 >= 4 { &small } else { &pool };
+            for inner in tuples(use_pool, c.arity) {
+                let child = (c.build)(inner.iter().map(|v| RE::Val(v.clone())).collect());
+                for outer in tuples(use_pool, p.arity - 1) {
+                    let mut it = outer.into_iter();
+                    let ch: Vec<RE> = (0..p.arity).map(|i| if i == pos { child.clone() } else { RE::Val(it.next().unwrap()) }).collect();
+                    let tree = (p.build)(ch);
+                    check_tree(&label, &tree, &mut acc);
+                }
+            }
+            acc
+        })
+        .reduce(Acc::new, |a, b| a.merge(b));
+    if tier == Tier::Thorough {
+        // chains of three kinds along every spine, 4-value leaf pool
+        let mut jobs3: Vec<(usize, usize, usize, usize, usize)> = Vec::new();
+        for (pi, p) in ks.iter().enumerate() {
+            for pos in 0..p.arity {
+                for (ci, c) in ks.iter().enumerate() {
+                    for cpos in 0..c.arity {
+                        for gi in 0..ks.len() {
+                            jobs3.push((pi, pos, ci, cpos, gi));
+                        }
+                    }
+                }
+            }
+        }
+        let tiny: Vec<RV> = vec![RV::Int(2), RV::Bool(true), RV::None];
+        let acc3 = jobs3
+            .par_iter()
+            .map(|&(pi, pos, ci, cpos, gi)| {
+                let mut acc = Acc::new();
+                let (p, c, g) = (&ks[pi], &ks[ci], &ks[gi]);
+                let label = format!("{}[{}]={}[{}]={}", p.label, pos, c.label, cpos, g.label);
+                for leaf in &tiny {
+                    let inner = (g.build)((0..g.arity).map(|_| RE::Val(leaf.clone())).collect());
+                    for other in &tiny {
+                        let mid: Vec<RE> = (0..c.arity).map(|i| if i == cpos { inner.clone() } else { RE::Val(other.clone()) }).collect();
+                        let midt = (c.build)(mid);
+                        let ch: Vec<RE> = (0..p.arity).map(|i| if i == pos { midt.clone() } else { RE::Val(other.clone()) }).collect();
+                        check_tree(&label, &(p.build)(ch), &mut acc);
+                    }
+                }
+                acc
+            })
+            .reduce(Acc::new, |a, b| a.merge(b));
+        acc = acc.merge(acc3);
+    }
+    acc.sample("composite", 1, || json!("(i2 + f1.5) * i0  ->  reference: first error (type) wins"));
+    acc
+}
+
 pub fn run(prop: Prop, tier: Tier) -> i32 {
     let mut rep = Report::new(prop.id(), tier);
     let thorough = tier == Tier::Thorough;
     let v0 = pool::v0();
     let small = pool::core(tier.pick(6, 10));
-    let core = pool::core(tier.pick(12, 25));
+    let core = pool::core(tier.pick(6, 25));
     let lit_core: BTreeSet<RV> = pool::core(25).into_iter().chain(pool::ints().into_iter().take(12)).collect();
     rep.bound("pool_v0", v0.len());
     rep.bound("round2_core", core.len());
@@ -638,7 +759,7 @@ pub fn run(prop: Prop, tier: Tier) -> i32 {
     // round 2: values reached in round 1 that are not in V0
     let v0set: BTreeSet<RV> = v0.iter().cloned().collect();
     let frontier: Vec<RV> = results1.iter().filter(|v| !v0set.contains(*v)).cloned().collect();
-    let cap = tier.pick(4_000usize, 40_000usize);
+    let cap = tier.pick(60_000usize, 400_000usize);
     let frontier_full = frontier.len();
     let frontier: Vec<RV> = frontier.into_iter().take(cap).collect();
     if frontier_full > frontier.len() {
@@ -662,13 +783,19 @@ pub fn run(prop: Prop, tier: Tier) -> i32 {
     rep.absorb(acc2);
     let new2 = results2.iter().filter(|v| !v0set.contains(*v) && !results1.contains(*v)).count();
 
+    // composition (C01: no panic; C02: composite = composition of sub-results)
+    if matches!(prop, Prop::C01 | Prop::C02) {
+        rep.absorb(composition_leg(prop, tier));
+        rep.bound("composition", tier.pick("depth 2: every kind in every child position of every kind x all leaf tuples over an 8-value pool", "as quick + chains of three kinds along every spine over a 3-value pool"));
+    }
+
     // input shapes
     let mut acc3 = Acc::new();
     input_shapes(prop, &mut acc3);
     rep.absorb(acc3);
 
     rep.states = (v0.len() + frontier_full + new2) as u64;
-    rep.transitions = rep.acc.get("transitions");
+    rep.transitions = rep.acc.get("transitions") + rep.acc.get("composite_trees");
     rep.traces = rep.acc.get("executions");
     rep.bound("round1_applications", n_apps1);
     rep.bound("round2_applications", apps2.len());
@@ -722,6 +849,25 @@ pub fn replay(prop: Prop, case: &J) -> i32 {
                     println!("verdict     : VIOLATED — {}", v.what);
                 }
                 1
+            }
+        }
+        Some("tree") => {
+            let text = case.get("text").and_then(|t| t.as_str()).unwrap_or("");
+            let parsed = match parse_expr(text) {
+                Ok(Ok(e)) => e,
+                o => {
+                    println!("parse failed: {o:?}");
+                    return 2;
+                }
+            };
+            let mut env = PlainEnv { facts: RV::None, symbols: BTreeMap::new() };
+            let exp = eval(&RE::from_expr(&parsed), &mut env);
+            let obs = eval_expr(&parsed, &Value::None);
+            println!("expression {text:?}: reference {}, observed {}", show_exp(&exp), obs.show());
+            if matches!(obs, Obs::Panic(_)) || conforms(&exp, &obs) == Some(false) {
+                1
+            } else {
+                0
             }
         }
         Some("shape") => {
